@@ -257,11 +257,34 @@ fn contains3(a: &mut Args) -> String {
     pts.iter().map(|p| if mesh.contains_local_point(p) { "1" } else { "0" }).collect::<Vec<_>>().join(" ")
 }
 
+/// `scaled3` (oracle only, see claims note): <mesh> sx sy sz -> pseudo-normals of `mesh.scaled(s)` and of a fresh build on its buffers
+fn scaled3(a: &mut Args) -> String {
+    use crate::p3::math::{Point, Vector};
+    use crate::p3::shape::{TriMesh, TriMeshFlags};
+    let m0 = read_mesh(a, 3);
+    let sc = Vector::new(a.f(), a.f(), a.f());
+    let mesh = match TriMesh::with_flags(m0.v.iter().map(|c| Point::new(c[0], c[1], c[2])).collect(), m0.i.clone(), TriMeshFlags::from_bits_truncate(m0.f)) {
+        Ok(m) => m, Err(_) => return "nobuild".into() };
+    let sm = mesh.scaled(&sc);
+    let fr = TriMesh::with_flags(sm.vertices().to_vec(), sm.indices().to_vec(), sm.flags()).unwrap();
+    let dump = |m: &TriMesh| match m.pseudo_normals() {
+        None => "-".to_string(),
+        Some(pn) => { let mut s = format!("{}", pn.vertices_pseudo_normal.len());
+            for v in &pn.vertices_pseudo_normal { s.push(' '); s.push_str(&ffs(v.iter())); }
+            s.push_str(&format!(" {}", pn.edges_pseudo_normal.len()));
+            for e in &pn.edges_pseudo_normal { for v in e.iter() { s.push(' '); s.push_str(&ffs(v.iter())); } }
+            s }
+    };
+    let aabb_eq = sm.local_aabb().mins == fr.local_aabb().mins && sm.local_aabb().maxs == fr.local_aabb().maxs;
+    format!("A {} S {} F {}", b(aabb_eq), dump(&sm), dump(&fr))
+}
+
 pub fn exec(func: &str, a: &mut Args) -> String {
     match func {
         "hist3" | "hist3w" => h3::hist(a),
         "hist2" | "hist2w" => h2::hist(a),
         "contains3" => contains3(a),
+        "scaled3" => scaled3(a),
         _ => "nofn".into(),
     }
 }
